@@ -1361,7 +1361,8 @@ pub fn clean_attr_values(el: &str, compat: bool) -> Vec<(&'static str, Vec<&'sta
             ("src", vec!["mxc://e.x/abc", "mxc:"]),
         ],
         "ol" => vec![("start", vec!["3"])],
-        "code" => vec![("class", vec!["language-rust", "language-a language-b"])],
+        // (irregular spacing inside a class list is not a class)
+        "code" => vec![("class", vec!["language-rust", "language-a language-b", "language-rust ", " language-c", "language-c  language-cpp"])],
         "div" => vec![("data-mx-maths", vec!["x^2"])],
         _ => vec![],
     }
